@@ -318,6 +318,19 @@ CHECKS = {
          "random runs (128 per quick run, 8-30 cycles each)",
          "offline history checker over recorded frames and hook on "
          "update_devices", "4 C30"),
+ "C26": ("exploration",
+         "The real Motor.program inside a real FastSyncGroup is loaded into "
+         "the kernel and executed with BPF_PROG_TEST_RUN on boundary cross "
+         "products, seeded random vectors inside the preconditions and "
+         "vectors solved onto each clamp edge (55 000 per quick run, 2 "
+         "million thorough); the velocity and enable bytes of the output "
+         "frame are compared with the limited control law over Python "
+         "integers; the reference machine re-executes a sample.",
+         "the statement is universal over bit-vectors; this decides only "
+         "the executed vectors (a sparse counter-example away from the "
+         "boundaries could be missed)",
+         "runtime differential monitoring of the loaded program against a "
+         "reference law", "4 C26"),
 }
 
 NOT_YET = "check not built yet in this round (design in DESIGN.md section 4)"
